@@ -10,8 +10,19 @@
 //	         protected header instead of the payload;
 //	phase 3  genuine tokens of every kind (opaque / JWT access token, refresh token, ID token) in every slot and
 //	         under every declared token type, and string-level manglings of tokens;
-//	phase 4  deep (nesting to 10 000 and beyond) and huge documents, serially, each logged to
-//	         replay/C09.inflight.json before it is executed and run under a generous watchdog.
+//	phase 4  deep (nesting to 10 000 and beyond) and huge documents, serially (concurrently with phases 1-3), each logged
+//	         to replay/C09.inflight.json before it is executed and run under a generous watchdog (-> inconclusive).
+//
+// Every phase starts with a systematic sweep (every top-level shape, the unmutated base of every family, every
+// (member name x core value) single mutation, every genuine token kind x slot x router) and continues with seeded
+// random multi-mutation documents; a case is a pure function of (seed, phase, index) and is replayed alone with
+// --replay (case index = phase*100_000_000 + i, CaseRand stream 200+phase).
+//
+// Bound that is a finding in itself: the library decodes nested "act" objects in quadratic time and space (depth 800:
+// 0.3 s / 120 MB; exactly 10 000 levels, a 180 kB document: about a minute and ~35 GB). Actor chains are therefore
+// decoded to 300 levels (quick) / 1 500 levels (thorough) only; deeper ones are sent only where the total nesting
+// exceeds encoding/json's limit of 10 000 and the first scan rejects them. The measured law is in the evidence
+// ("docs.actor_chain_decode_cost_informational"), it is not part of the verdict.
 //
 // Oracle (structural, from the statement of C09): no panic (attributed by stack: library frame -> violation
 // "C09:docs:panic:<site>", harness frame -> harness bug), and for HTTP a single well-formed response (one WriteHeader,
@@ -170,6 +181,7 @@ func (f *front) panicked(l *local, caseIdx int64, target string, pi *mon.PanicIn
 	switch {
 	case pi.InRepo:
 		l.count("docs.panics.by_site", pi.Site())
+		l.count("docs.panics.site_reached_through", shortSite(pi.Site())+" <- "+target)
 		f.run.Violation("C09:docs:panic:"+pi.Site(), caseIdx, fmt.Sprintf("panic %q in library code (%s) reached through %s", pi.Value, pi.Frame, target), witness)
 	default:
 		fn, file := innermostFrame(pi.Stack)
@@ -188,6 +200,10 @@ func cpuSeconds() float64 {
 		return 0
 	}
 	return float64(ru.Utime.Sec+ru.Stime.Sec) + float64(ru.Utime.Usec+ru.Stime.Usec)/1e6
+}
+
+func shortSite(s string) string {
+	return strings.TrimPrefix(s, "github.com/zitadel/oidc/v3/pkg/")
 }
 
 func outcomeDigest(ok, errs, panics int) string {
